@@ -100,6 +100,8 @@ def graph(ctx, quick):
     cfg = {"maxc": 3, "paths": ["k", "A.x", "A.y"]}
     # a deep graph over three rules (plain, no-loop, lock-on-active in a group) with rules removed and re-added between executes
     c.graph_leg(ctx, "ForwardGen.tla", "forward", "Gen_ForwardGen_rm.cfg", cfg, 300 if quick else 5000, 10, 0)
+    # lock-on-active bookkeeping is keyed by group NAME inside the engine: every sequence of focus / pop / execute to depth 8
+    c.graph_leg(ctx, "ForwardGen.tla", "forward", "Gen_ForwardGen_focus.cfg", cfg, 100, 10, 8)
     if quick:
         c.graph_leg(ctx, "ForwardGen.tla", "forward", "Gen_ForwardGen.cfg", cfg, 300, 7, 0, "Sim_ForwardGen.cfg", 300, 9)
     else:
